@@ -257,6 +257,41 @@ def check_mesh(ctx, case):
         return
     if not np.array_equal(np.array(base["J"]), np.array(got["J"])):
         ctx.violation({"kind": "mesh-inside-outside-depends-on-scale", "scale": d}, case, {"scale": f, "mesh": kind})
+        return
+    # the alternative constructors: the stored geometry is the given one at every scale (2^k scaling is exact)
+    if kind in ("closed", "flipped", "plate"):
+        T = V[F]
+        pol = (0.1, 0.2, 0.3)
+        kw = dict(check_open="ignore", check_disconnected="ignore", check_selfintersecting="ignore", reorient_faces="ignore")
+        P = V.mean(axis=0) + (V.max(axis=0) - V.min(axis=0)) * np.array([[1.3, 0.2, -0.4], [-0.3, 0.9, 1.1]])
+        for name in ("from_mesh", "from_triangles", "from_ConvexHull"):
+            try:
+                with quiet(), np.errstate(all="ignore"):
+                    def make(g):
+                        if name == "from_mesh":
+                            return magpy.magnet.TriangularMesh.from_mesh(mesh=T * g, polarization=pol, **kw)
+                        if name == "from_triangles":
+                            tri = [magpy.misc.Triangle(vertices=t * g, polarization=pol) for t in T]
+                            return magpy.magnet.TriangularMesh.from_triangles(triangles=tri, polarization=pol, **kw)
+                        return magpy.magnet.TriangularMesh.from_ConvexHull(points=V * g, polarization=pol, **kw)
+                    a, b = make(1.0), make(f)
+                    Ba, Bb = np.asarray(a.getB(P)), np.asarray(b.getB(P * f))
+            except Exception as ex:
+                ctx.violation({"kind": "mesh-raises-at-some-scale", "mesh": kind, "type": type(ex).__name__, "scale": d,
+                               "ctor": name}, case, exc_info(ex))
+                return
+            ctx.count("ctor_pairs:" + name)
+            if name != "from_ConvexHull":
+                va, vb = np.asarray(a.vertices), np.asarray(b.vertices) / f
+                if va.shape != vb.shape or not np.array_equal(va, vb) or not np.array_equal(a.faces, b.faces):
+                    ctx.violation({"kind": "constructor-geometry-depends-on-scale", "ctor": name, "scale": d}, case,
+                                  {"scale": f, "nverts": [len(va), len(vb)],
+                                   "maxdiff": float(np.max(np.abs(va - vb))) if va.shape == vb.shape else None})
+                    return
+            if not np.allclose(Ba, Bb, rtol=1e-9, atol=1e-13):
+                ctx.violation({"kind": "constructor-field-depends-on-scale", "ctor": name, "scale": d}, case,
+                              {"scale": f, "base": Ba, "scaled": Bb})
+                return
 
 
 def check_case(ctx, case):
